@@ -242,7 +242,7 @@ def main():
                        "reason": PENDING.get(pid, "check not built yet (work in progress; the technique applies, see DESIGN.md 4)")})
     man = {
         "version": 1,
-        "setup_cmd": "cd /verif && python3-vt -m fsv.build",
+        "setup_cmd": "cd /verif && python3-vt -m fsv.build && python3-vt -m fsv.fuzzrun --build",
         "hooks": {
             "guard": "fselect_verif",
             "enable": "RUSTFLAGS='--cfg fselect_verif' is passed by fsv.build; no hook exists in /repo (none needed), so the flag is inert",
@@ -251,6 +251,10 @@ def main():
             "add_only": True,
         },
         "engines": [
+            {"name": "fuzz", "path": "/verif/fuzz", "serves_properties": ["C10", "C11"],
+             "kind_free_text": "cargo-fuzz / libFuzzer targets that #[path]-include /repo/src (parse_total: Parser::parse never panics or "
+                               "hangs; split_invariance: one argument vs split arguments parse identically); fixed -runs campaigns as a "
+                               "supplement, every artifact re-judged on the real binary before it counts"},
             {"name": "fsv", "path": "/verif/fsv", "serves_properties": sorted(CHECKS),
              "kind_free_text": "Python/Hypothesis property-based testing engine driving the release binary built from "
                                "/repo's working tree against real directory trees; independent reference models; "
